@@ -77,9 +77,43 @@ def run(ctx):
         for L in loads:
             n_loads += 1
             _check_hint(ctx, k, u, f, L)
+    # every other mention of an atomic (or mutable) member: the object of .store()/.load(), an assignment
+    # target or a constructor initialiser -- never an implicit conversion or a reference that re-reads it
+    n_other = 0
+    for k, (u, f) in G.defs.items():
+        for x in walk(f):
+            if x.get('kind') != 'MemberExpr':
+                continue
+            d = u.by_id.get(x.get('referencedMemberDecl'))
+            if d is None or d.get('kind') != 'FieldDecl' or not ctx.P.inside(d):
+                continue
+            t = (dtype(d) or '') + ' ' + qtype(d)
+            if not (re.search(r'\batomic<', t) or d.get('mutable')):
+                continue
+            p = x.get('_p')
+            while p is not None and p.get('kind') in ('ImplicitCastExpr', 'ParenExpr') and p.get('castKind') != 'LValueToRValue':
+                p = p.get('_p')
+            okuse = False
+            if p is not None and p.get('kind') == 'MemberExpr' and p.get('name') in ('load', 'store'):
+                okuse = True
+            elif p is not None and p.get('kind') == 'BinaryOperator' and p.get('opcode') == '=' and \
+                    any(y is x for y in walk(kids(p)[0])):
+                okuse = True
+            elif p is not None and p.get('kind') == 'CXXOperatorCallExpr' and callee(p) and callee(p)[0] == 'fn' and \
+                    callee(p)[1].get('name') == 'operator=' and any(y is x for y in walk(call_args(p)[0])):
+                okuse = True
+            elif p is not None and p.get('kind') == 'ImplicitCastExpr' and p.get('castKind') == 'LValueToRValue' and d.get('mutable') \
+                    and not re.search(r'\batomic<', t):
+                okuse = True     # plain mutable member: the read itself is an instance of the rule above
+            n_other += 1
+            ctx.check(okuse, 'C14-hint', 'mention of %s in %s is a load, a store or an assignment' % (qn(d), fname(k)), x,
+                      'the shared hint %s is used here other than through one load bound to a local (an implicit conversion, '
+                      'or a reference to it): every such use reads the shared value again, so the test that validates the hint '
+                      'and the use of the hint can see two different values when another thread stores in between' % qn(d),
+                      construct='hint-mention:%s:%s' % (fname(k), qn(d)), detail='load/store/assignment')
     ctx.minimum('C14-hint', 8)
-    if n_loads < 2:
-        raise AnalysisBroken('C14-hint: %d atomic loads found, 2 confirmed on the pinned tree' % n_loads)
+    if n_loads < 1 and n_other < 1:
+        raise AnalysisBroken('C14-hint: no hint load found')
 
     # ---- C14-order
     _check_order(ctx)
